@@ -399,7 +399,8 @@ class Parser(ExprParser):
             params.append(node)
             if self.have("COMMA"):
                 if self.have("VARARG"):
-                    raise NotImplementedError("varargs")
+                    raise NotImplementedError(
+                        "varargs are not supported: " + self.decl)
             else:
                 break
         self.mustbe("RPAREN")
